@@ -149,6 +149,8 @@ class MemoryStorage(AbstractStorage):
             else:
                 event.id = 0
             self.db[bucket].append(event)
+            # (the caller gets a copy back, not the stored event itself)
+            event = copy.deepcopy(event)
         return event
 
     def delete(self, bucket_id, event_id):
